@@ -35,6 +35,8 @@ pub enum Op {
     /// fresh Linter rebuilt from exported words, ignore list and config
     RebuildFromExports,
     SetConfig(Vec<(String, Option<bool>)>),
+    /// switch one of the rules that fire on text `text` (if it is short) on or off
+    ToggleFiring { text: u16, which: u16, on: bool },
 }
 
 #[derive(Debug, Clone, Serialize, Deserialize, PartialEq, Eq, Hash)]
@@ -134,7 +136,27 @@ pub fn test_api(c: &ApiCase, ctx: &mut CaseCtx) -> Result<(), String> {
     let mut pending_ignore = false;
     let mut pending_import = false;
 
-    for (step, op) in c.ops.iter().enumerate() {
+    // resolve the rule-toggling ops against the texts
+    let ops: Vec<Op> = c
+        .ops
+        .iter()
+        .map(|op| match op {
+            Op::ToggleFiring { text, which, on } => {
+                let t = &texts[pick_idx(*text, texts.len())];
+                let rules = if t.chars().count() <= 160 { super::c05::firing_rules(t) } else { vec![] };
+                if rules.is_empty() {
+                    Op::SetConfig(vec![])
+                } else {
+                    Op::SetConfig(vec![(rules[pick_idx(*which, rules.len())].clone(), Some(*on))])
+                }
+            }
+            o => o.clone(),
+        })
+        .collect();
+    if c.ops.iter().any(|o| matches!(o, Op::ToggleFiring { .. })) {
+        ctx.class("firing_rule_toggled");
+    }
+    for (step, op) in ops.iter().enumerate() {
         match op {
             Op::Lint { text, markdown } => {
                 let ti = pick_idx(*text, texts.len());
@@ -396,6 +418,7 @@ pub fn test_api(c: &ApiCase, ctx: &mut CaseCtx) -> Result<(), String> {
                     .map_err(|e| format!("step {step}: import_stats_file failed on generated file: {e}"))?;
                 linter = fresh;
             }
+            Op::ToggleFiring { .. } => {}
             Op::SetConfig(entries) => {
                 let map: serde_json::Map<String, Value> = entries
                     .iter()
@@ -436,6 +459,10 @@ fn api_text() -> BoxedStrategy<String> {
             .prop_map(|(a, s, b)| format!("The {a} is an problem. {s} We like {b} and {a}.")),
         1 => Just("Their is an apple, an problem, teh wrold and a  double space. I could of gone. the the cat".to_string()),
         1 => Just("I could **of** done it. Their is teh `code` here.".to_string()),
+        // an importable word within two characters of other lints
+        3 => (g::sel_str(IMPORTABLE), g::sel_str(IMPORTABLE)).prop_map(|(a, b)| format!("I saw an {a} thing and the the {b} cat. We we like {a}.")),
+        // short texts on which pattern rules fire
+        2 => g::sel_str(&["He is taller then her.", "I could of gone there fore.", "Their is alot of work to to do.", "This is very very good, more then enough.", "As a matter of fact, at the end of the day it is what it is."]),
     ]
     .boxed()
 }
@@ -457,6 +484,7 @@ fn op() -> BoxedStrategy<Op> {
         1 => Just(Op::ClearIgnored),
         1 => Just(Op::RebuildFromExports),
         2 => proptest::collection::vec((cfg_key, prop_oneof![Just(Some(true)), Just(Some(false)), Just(None)]), 1..3).prop_map(Op::SetConfig),
+        3 => (any::<u16>(), any::<u16>(), prop::bool::weighted(0.3)).prop_map(|(text, which, on)| Op::ToggleFiring { text, which, on }),
     ]
     .boxed()
 }
